@@ -32,6 +32,11 @@
 // NETWORK / NETWORK_ID / TTX_PAGE at all.  One event raised by the library is evaluated once, at its delivery to the
 // lowest subscribed slot.  What the model may conclude without a NETWORK listener: see net_wit.
 //
+// Teletext services (625-line runs): every station has its own page header text, or one of three, or all share one
+// (knob own_headers); pages in all eight magazines, parallel or serial mode.  Differing rolling headers are what the
+// decoder's own channel switch detection works on: see hdr_seen for what the statement lets it do in header-first
+// and in identifier-first order.
+//
 // Real re-tunes (mode 1): a station change accompanied by dropped frames ("gap" next to "station").  A gap makes the
 // decoder suspect a channel switch (vbi_decode() documentation); the model grants ONE assumed switch per suspicion
 // and returns to the strict clauses once the suspicion is visibly resolved (see resolve_suspicion()).
@@ -444,6 +449,13 @@ struct C13 : World {
         }
       }
     }
+    if (mode != 2) {
+      // Teletext services: every station its own page header text (1), three services shared by all stations (2), or one
+      // header for all (knob absent, older plans); pages in magazine serial mode (fourth page argument).
+      Rng rt(seed, "page-headers");
+      if (rt.chance(1, 2)) p.knobs["own_headers"] = 1 + (int64_t)rt.below(2);
+      for (auto& o : p.ops) if (o.kind == "page") { while (o.a.size() < 3) o.a.push_back(0); o.a.push_back(rt.chance(1, 5) ? 1 : 0); }
+    }
     {
       // Fault positions (fourth rx argument; absent / 0 = the older position rule): Hamming faults of the 8/30 packets
       // hit every protected byte (designation, initial page, format 2: the 13 PDC bytes) with the same probability,
@@ -544,10 +556,32 @@ struct C13 : World {
   void net_view_lost() {
     for (int p : must_pages) maybe_pages.insert(p);
     must_pages.clear(); pending_drop = false; pi_known = false; wss_live = 0;
+    wss_since = 1 << 20;  // resets can no longer be observed
     ctx->count("network_view_lost");
   }
   void net_view_established() { for (int k = 0; k < NSLOT; k++) net_wit[k] = (hmask[k] & VBI_EVENT_NETWORK) != 0; }
   std::map<int, int> hyp[3];
+  // "WSS: after several identical repeats": repeats of the station the announcement is made for.  Once the decoder has
+  // reported that it left an identified station (NETWORK event for another station, station revoked / assumed switch:
+  // vbi_channel_switched() documents that a switch resets the decoding context) what was received before belongs to the
+  // old station and does not count.  wss_since: WSS receptions since the last such event the model could observe (a
+  // first identification is no such event; unobservable ones leave the count alone, which is the lenient side).
+  int wss_since = 0;
+  // Teletext page headers.  Knob own_headers: every station has its own header text (1) or one of three (2: stations
+  // sharing a Teletext service); absent: all stations share one text (older plans).  hdr_seen: header texts of the
+  // rolling-header pages received (with a TTX_PAGE listener) since the last decoder reset the model could observe.  The
+  // decoder "attempts to detect channel switches automatically" (vbi_channel_switched() documentation; for Teletext by
+  // comparing rolling page headers): when a rolling header arrives that differs from one in hdr_seen the Teletext
+  // evidence says "another station" and the decoder may assume a switch - blank NETWORK event if a station was
+  // identified, silently otherwise, cache dropped, identifiers forgotten, the page itself lost.  That is "station no
+  // longer identified", not one of the network events the change clause counts; the identification of the new station
+  // follows with its own NETWORK event (header-first order).  In identifier-first order (change between identified
+  // stations confirmed and announced, hdr_seen emptied with it) the new station's pages are no such evidence: exactly
+  // one NETWORK event, and its pages stay cached.
+  int own_headers = 0; std::set<int> hdr_seen; bool page_switch_possible = false;
+  int header_id() const { if (!own_headers || !air.on || mode == 2) return 0; int id = g_rows[(size_t)air.row].id; return own_headers == 1 ? 1 + id : 1 + id % 3; }
+  // the decoder reset itself and the model saw it
+  void decoder_reset_observed() { wss_since = 0; hdr_seen.clear(); }
   std::set<int> alt[3];   // identifier values the decoder may hold for a carrier besides last[] (undecided receptions)
   bool was_undecided[3] = {false, false, false};
   int observed_events = 0;
@@ -666,6 +700,7 @@ struct C13 : World {
     }
     if (!w.in_decode) { w.ctx->fail("oracle:c13-event-outside-decode", "event %d raised outside vbi_decode()", ev->type); return; }
     w.observed_events++;
+    if (w.cur_line < 0 && ev->type == VBI_EVENT_NETWORK) w.wss_since = 0;  // (evaluated after the frame; the reset precedes its lines)
     if (w.cur_line < 0) w.pre_events.push_back(e); else w.line_events.push_back(e);
   }
 
@@ -725,6 +760,7 @@ struct C13 : World {
       }
       case L_WSS:
         if (wss_have && wss_last == L.word) { wss_streak++; wss_live++; } else { wss_streak = 1; wss_live = 1; }
+        wss_since++;
         if (relaxed || !net_view_ok()) wss_live = 0;  // (a station change nobody can observe makes the decoder start afresh)
         wss_have = true; wss_last = L.word;
         break;
@@ -795,6 +831,7 @@ struct C13 : World {
     net_epoch++;
     any_net = true; last_net_nuid = 0; last_net_name.clear(); last_net_call.clear(); net_view_established();
     aspect_known = false; pi_known = false; wss_live = 0;
+    decoder_reset_observed();
     for (int k = 0; k < 3; k++) blanked[k] = true;
     dirty = true;
     // the station is no longer identified: the statement is silent about the cache (but a later change between
@@ -805,6 +842,7 @@ struct C13 : World {
   }
   void network_changed(bool from_identified, bool to_identified) {
     net_epoch++; legit_net++; wss_live = 0;
+    if (from_identified) decoder_reset_observed();
     aspect_known = false;  // the reset may announce the aspect again (vbi_channel_switched documentation: "blank events ... revoking")
     pi_known = false;
     if (from_identified && to_identified) { pending_drop = true; ctx->count("station_switch_identified"); }
@@ -940,6 +978,7 @@ struct C13 : World {
   bool check_aspect_value(const Line& L, const vbi_aspect_ratio& v, const char* what) {
     // "after several identical repeats": no number is documented; the weakest reading (a reception and two repeats) is demanded
     if (wss_streak < 3) { ctx->fail("oracle:c13-aspect-early", "%s after %d identical reception(s) of WSS word %04x", what, wss_streak, L.word); return false; }
+    if (wss_since < 3) { ctx->fail("oracle:c13-aspect-early", "%s after %d reception(s) of WSS word %04x since the decoder reported that it left the previous station (%d identical ones in a row counting those of the previous station)", what, wss_since, L.word, wss_streak); return false; }
     if (!wss_parity_ok(L.word)) { ctx->fail("oracle:c13-aspect-parity", "%s from WSS word %04x whose aspect ratio group has even parity", what, L.word); return false; }
     Aspect a = wss_aspect(L.word);
     // anamorphic: the representation of the ratio is the library's choice (documented "16/9 for example", implemented 3/4)
@@ -1057,14 +1096,23 @@ struct C13 : World {
       case L_VPS: case L_8301: case L_8302: eval_cni_line(L, evs); break;
       case L_WSS: eval_wss_line(L, evs); break;
       case L_XDS: eval_xds_line(L, evs); break;
-      default:
+      default: {
+        bool ttx_switched = false;
         for (Ev& e : evs) {
-          // (the Teletext decoder has its own channel switch detection; only while a switch is suspected anyway)
-          if (relaxed && e.type == VBI_EVENT_NETWORK && net_blank(e.net)) { assumed_switch_executed(); continue; }
-          if (relaxed && e.type == VBI_EVENT_ASPECT && asp_blank(e.asp)) continue;
-          ctx->fail("oracle:c13-event-spurious", "event %d raised by a %s line", e.type, kind_name[L.kind]);
+          // (the Teletext decoder has its own channel switch detection; only while a switch is suspected anyway,
+          // or when the rolling header of this page differs from one received before, see hdr_seen)
+          bool may_switch = relaxed || page_switch_possible || ttx_switched;
+          if (may_switch && e.type == VBI_EVENT_NETWORK && net_blank(e.net)) {
+            if (!relaxed) ctx->count("header_switch_network_blank");
+            assumed_switch_executed(); ttx_switched = true; continue;
+          }
+          if (may_switch && e.type == VBI_EVENT_ASPECT && asp_blank(e.asp)) { ctx->count("aspect_blank"); set_view(e.asp); if (!net_view_ok()) { aspect_known = false; pi_known = false; wss_live = 0; } continue; }
+          if (e.type == VBI_EVENT_NETWORK)
+            ctx->fail("oracle:c13-network-spurious", "NETWORK event (nuid %u) raised by a Teletext page although neither frames were dropped nor does its header differ from a header received since the station was announced", e.net.nuid);
+          else ctx->fail("oracle:c13-event-spurious", "event %d raised by a %s line", e.type, kind_name[L.kind]);
           return;
         }
+      }
     }
   }
 
@@ -1144,16 +1192,36 @@ struct C13 : World {
   // a Teletext page transmitted in one frame (header, two rows, terminating header); all stations use the same
   // header text (the header comparison of the Teletext decoder is another mechanism, not part of C13)
   // magazine 1-8 (0 = 1): parallel magazine transmission, the page is terminated by the next header of its magazine
-  void send_page(int page_bcd, int seed, int magazine = 1) {
+  // serial: magazine serial transmission (C11 set in both headers): the header counts as a rolling header in every magazine
+  void send_page(int page_bcd, int seed, int magazine = 1, bool serial = false) {
     flush();
     int epoch = net_epoch;
     int mag = magazine < 1 || magazine > 8 ? 1 : magazine;
     int pgno = mag * 0x100 + page_bcd;
+    int hid = header_id();
     auto hdr = [&](int page, bool erase) {
-      char t[40]; snprintf(t, sizeof t, "ZSIMTEXT%03X Network News AB12:34:56", mag * 0x100 + page);
+      char t[48];
+      if (hid == 0) snprintf(t, sizeof t, "ZSIMTEXT%03X Network News AB12:34:56", mag * 0x100 + page);
+      else snprintf(t, sizeof t, "ZSIMTEXT%03X St%05d News AB12:34:56", mag * 0x100 + page, hid % 100000);  // 24 compared characters, then the clock
       uint8_t text[32]; memcpy(text, t, 32);
-      return ttx::header(mag, page, 0, erase ? ttx::C4_ERASE : 0, text);
+      return ttx::header(mag, page, 0, (erase ? ttx::C4_ERASE : 0) | (serial ? ttx::C11_SERIAL : 0), text);
     };
+    // EN 300 706 / event.h roll_header: pages 100-199 of a parallel transmission, every page of a serial one (the
+    // world sets none of the flags that take a page out of the rolling sequence)
+    bool rolling = (mag == 1 || serial) && leader(VBI_EVENT_TTX_PAGE) >= 0;
+    page_switch_possible = false;
+    if (rolling) for (int h : hdr_seen) if (h != hid) page_switch_possible = true;
+    if (page_switch_possible) {
+      // The Teletext evidence says "another station" (see hdr_seen): the decoder may assume a switch now.  Observed through
+      // a blank NETWORK event when a station was identified (eval_line()); silent otherwise, so whatever such a reset
+      // forgets is held leniently from here: cached pages, identifiers (announced afresh), aspect ratio memory.
+      for (int p : must_pages) maybe_pages.insert(p);
+      must_pages.clear();
+      for (int k = 0; k < 3; k++) blanked[k] = true;
+      dirty = true; aspect_known = false; pi_known = false; wss_live = 0;
+      ctx->count("page_header_of_another_station");
+    }
+    if (serial) ctx->count("pages_serial_mode");
     Line L; L.kind = L_TTX;
     int save_max = frame_max; frame_max = 8;
     ttx::Packet h = hdr(page_bcd, true);
@@ -1165,9 +1233,11 @@ struct C13 : World {
     }
     ttx::Packet e = hdr(0x99, true);
     sl.push_back(ttx_sliced(e.b, 10)); lines.push_back(L);
-    ctx->log("tx page %x", pgno);
+    ctx->log("tx page %x header %d%s", pgno, hid, serial ? " serial" : "");
     flush();
     frame_max = save_max;
+    page_switch_possible = false;
+    if (rolling) hdr_seen.insert(hid);
     if (ctx->failed) return;
     int c; { SutScope ss; c = vbi_is_cached(dec, pgno, VBI_ANY_SUBNO); }
     if (mag > 1) ctx->count("pages_other_magazines");
@@ -1393,6 +1463,8 @@ struct C13 : World {
     // a fresh decoder has announced nothing: that is what the handlers registered now know
     for (int k = 0; k < NSLOT; k++) { net_wit[k] = (hmask[k] & VBI_EVENT_NETWORK) != 0; nid_wit[k] = (hmask[k] & VBI_EVENT_NETWORK_ID) != 0; }
     for (int k = 0; k < 3; k++) { alt[k].clear(); was_undecided[k] = false; hyp[k].clear(); }
+    wss_since = net_view_ok() ? 0 : 1 << 20;
+    own_headers = mode == 2 ? 0 : (int)(llabs(plan.knob("own_headers")) % 3); hdr_seen.clear(); page_switch_possible = false;
     observed_events = 0;
     Sched sched(c, (uint64_t)plan.knob("sched_seed", (int64_t)plan.seed), (Policy)(llabs(plan.knob("policy")) % 3), (int)plan.knob("pparam"));
     { SutScope ss;
@@ -1410,7 +1482,7 @@ struct C13 : World {
         if (op->kind == "station") set_station(*op);
         else if (op->kind == "prog") { set_prog(air, (uint64_t)op->arg(0)); c.log("prog pil=%x", air.prog.pil); }
         else if (op->kind == "wss") { set_wss(air, (int)op->arg(0)); c.log("wss %04x", air.wss); }
-        else if (op->kind == "page") { int pg = (int)(llabs(op->arg(0)) % 90); send_page((pg / 10) * 16 + pg % 10, (int)(llabs(op->arg(1)) % 1000), (int)(llabs(op->arg(2)) % 9)); }
+        else if (op->kind == "page") { int pg = (int)(llabs(op->arg(0)) % 90); send_page((pg / 10) * 16 + pg % 10, (int)(llabs(op->arg(1)) % 1000), (int)(llabs(op->arg(2)) % 9), (llabs(op->arg(3)) & 1) != 0); }
         else if (op->kind == "handler") set_handler(*op);
     };
     for (size_t i = 0; i < per[0].size() && !c.failed; i++)
